@@ -39,7 +39,7 @@ SOLVER_INV = ["Refines", "Complete", "Terminates", "FreshIsFresh", "NodesAcyclic
 SOLVER_PROPS = ["CutCommits", "NoRetryLeftOfCut", "CutIsLocal"]
 SOLVER_CONST = {"Depth": 12, "ReAsks": 2, "MaxSteps": 4000, "Bug_ClauseLoopIgnoresCut": "FALSE",
                 "Bug_OrTailAfterCut": "FALSE", "Bug_NotStaysArmed": "FALSE"}
-for _s in ("andor", "cut", "not", "print", "lists", "alias"):
+for _s in ("andor", "cut", "not", "print", "lists", "alias", "time"):
     JOBS["solver-" + _s] = dict(module="MC_Solver", constants=dict(SOLVER_CONST, Slice=_s), subst=BIP_SUBST,
                                 invariants=SOLVER_INV, properties=SOLVER_PROPS, constraint="WithinBudget",
                                 timeout={"quick": 1200, "thorough": 3600})
@@ -137,9 +137,10 @@ PROPS = {
                 rule="constructor: every element sequence up to length 5 over atoms, numbers, variables, $_, complex terms, empty / nested / tailed lists x vbar, stepped through the make_linked_list machine of Lists.tla; "
                      "engine-built lists: every renamed term vector, append result and include/exclude result of the other slices, projected cell by cell with the well-formedness check",
                 assumptions=["a single-element sequence whose element is a list is outside the documented constructor contract", "parsed lists are checked by the syntax slices (C19)"]),
-    "C10": dict(jobs=["lists-rename", "unify-plain", "solver-lists", "solver-alias", "solver-andor"], level="model_checking",
+    "C10": dict(jobs=["lists-rename", "unify-plain", "solver-lists", "solver-alias", "solver-andor", "trace-solver"], level="model_checking",
                 rule="every vector of 1-3 terms (clause-shaped: shared and distinct variable names, $_, empty / nested lists, tails, function terms) renamed from two counter values; plus every term pair of the unifier slice renamed and unified",
-                assumptions=["freshness in the middle of a search is checked by the solver trace slices"]),
+                assumptions=["freshness in the middle of a search: after every replayed query each clause of the program is fetched with get_rule() one after the other; "
+                             "and in every recorded run each head unification must have taken at least one fresh id per variable name of its clause (the engine's own counter, logged by the resolve hook)"]),
     "C16": dict(jobs=["bip-append"], level="model_checking",
                 rule="append with 1-4 inputs from a universe of atoms, numbers, complex terms, bound variables, lists with nested / empty-list elements and bound tails, x 3 priors x several Out shapes",
                 assumptions=["unbound-variable inputs and lists with an unbound tail are outside the claim and excluded"]),
@@ -154,6 +155,13 @@ PROPS = {
                 rule="every function term of the universe (4 arithmetic functions x 6 argument lists, 5 joins) against variables, constants of every type and other function terms, both orders, bare and nested in f(_) and in a list, under 6 priors",
                 assumptions=["arithmetic is exact (dyadic) in the model: inputs whose fold is not exactly representable are excluded"]),
 }
+
+# Behaviour of the system that the specification covers beyond the listed properties (not in MANIFEST.json:
+# `./check X01` is run by `./selftest extra`)
+PROPS["X01"] = dict(jobs=["solver-time"], level="model_checking",
+                    rule="time(G) around calls, conjunctions, disjunctions, printing and failing goals and not(...), alone / right and left of multi-answer goals / in a disjunction / nested / under not: "
+                         "G is asked once, the elapsed time is written when the search for its first answer ends, a second request fails silently (Solver.tla TimeCall / TimeResult against SLD.tla)",
+                    assumptions=["the text written by time(...) is compared up to the two numbers", "cut inside time(...) is outside every claim"])
 
 LEVEL_TEXT = ("TLC explores the relevant state machine of the TLA+ specification exhaustively over a bounded universe, checks the property as "
               "invariants of the specification against an independent declarative definition in the same modules, and every explored behaviour "
